@@ -502,9 +502,15 @@ func init() {
 			cs = append(cs, Case{ID: "regex-trees", Run: func() CaseResult { return c25Regex(tier) }})
 			cs = append(cs, Case{ID: "prefilter-trees", Run: func() CaseResult { return c25Prefilter(tier) }})
 			cs = append(cs, Case{ID: "builders", Run: c25Builders})
+			for s := 0; s < sh; s++ {
+				s := s
+				cs = append(cs, Case{ID: fmt.Sprintf("shared-bloom/%d", s), Run: func() CaseResult { return c25ShareBloom(tier, s, sh) }})
+			}
+			cs = append(cs, Case{ID: "shared-regex", Run: func() CaseResult { return c25ShareRegex(tier) }})
+			cs = append(cs, Case{ID: "shared-prefilter", Run: func() CaseResult { return c25SharePrefilter(tier) }})
 			cs = append(cs, Case{ID: "special-nodes", Run: func() CaseResult { return treeCase(sweepOpts{c01: true, c02: true}) }})
 			return cs
 		},
-		Rule: "all nested AND/OR combinations (depth <= 2 quick / 3 thorough, <= 3 children) over 4 bloom, 3 regex and 4 prefilter leaves, each built bottom-up through the public constructors (so flattening runs) and evaluated by the real engine on a 16-row truth-table corpus against the nested combination as written; every tree and Query is marshalled, unmarshalled, compared structurally and re-run; builder chains of length <= 4 in the documented forms; nil/empty/unknown nodes via the special-node tree set; non-trivial = the tree separates the corpus",
+		Rule: "all nested AND/OR combinations (depth <= 2 quick / 3 thorough, <= 3 children) over 4 bloom, 3 regex and 4 prefilter leaves, each built bottom-up through the public constructors (so flattening runs) and evaluated by the real engine on a 16-row truth-table corpus against the nested combination as written; every tree and Query is marshalled, unmarshalled, compared structurally and re-run; builder chains of length <= 4 in the documented forms; nil/empty/unknown nodes via the special-node tree set; construction histories of <= 2 (quick) / 3 (thorough) steps over a pool seeded with one shared base expression (constructors, builder chains after Match, AndBloomQueries applied to any pool member): the new object must mean what was written and every object built earlier must keep its serialised form; non-trivial = the tree separates the corpus",
 	}
 }
